@@ -224,13 +224,30 @@ fn strhash_main<S: WriteAll>(env: &mut Env<S>, args: Vec<Field>) -> BFut<'_> {
 
 /// `cat [FILE...]` - copies the files (or stdin) to stdout.
 fn cat_main<S: WriteAll + Read + Open + Close>(env: &mut Env<S>, args: Vec<Field>) -> BFut<'_> {
+    cat_impl(env, args, false)
+}
+
+/// `catfd N` - copies descriptor N to stdout.
+fn catfd_main<S: WriteAll + Read + Open + Close>(env: &mut Env<S>, args: Vec<Field>) -> BFut<'_> {
+    cat_impl(env, args, true)
+}
+
+fn cat_impl<S: WriteAll + Read + Open + Close>(
+    env: &mut Env<S>,
+    args: Vec<Field>,
+    fd_mode: bool,
+) -> BFut<'_> {
     Box::pin(async move {
         let mut status = ExitStatus::SUCCESS;
         let mut fds = Vec::new();
         if args.is_empty() {
             fds.push((Fd::STDIN, false));
         }
-        for a in &args {
+        let from_fd = fd_mode.then(|| args.first().and_then(|a| a.value.parse().ok()).unwrap_or(0));
+        if let Some(n) = from_fd {
+            fds.push((Fd(n), false));
+        }
+        for a in args.iter().skip(if fd_mode { usize::MAX } else { 0 }) {
             let Ok(c) = std::ffi::CString::new(a.value.as_str()) else {
                 status = ExitStatus::FAILURE;
                 continue;
@@ -281,6 +298,7 @@ where
 {
     vec![
         ("cat", Builtin::new(Type::Mandatory, cat_main)),
+        ("catfd", Builtin::new(Type::Mandatory, catfd_main)),
         ("echo", Builtin::new(Type::Mandatory, echo_main)),
         ("printn", Builtin::new(Type::Mandatory, printn_main)),
         ("rc", Builtin::new(Type::Mandatory, rc_main)),
@@ -345,9 +363,26 @@ fn fds_main(env: &mut Env<VS>, _args: Vec<Field>) -> BFut<'_> {
     })
 }
 
+/// `tell K` - records the current offset of standard input (or -1 if it is not
+/// seekable) in the simulator's history; leaves `$?` unchanged.
+fn tell_main(env: &mut Env<VS>, args: Vec<Field>) -> BFut<'_> {
+    use yash_env::system::Seek as _;
+    let off = env
+        .system
+        .lseek(Fd::STDIN, std::io::SeekFrom::Current(0))
+        .map_or(-1, |o| o as i64);
+    let pid = env.system.getpid().0;
+    if let Some(ctl) = ctl() {
+        ctl.record(pid, "tell", off, 0, &strs(&args).join(" "));
+    }
+    let st = env.exit_status;
+    Box::pin(std::future::ready(BResult::new(st)))
+}
+
 pub fn virtual_probes() -> Vec<(&'static str, Builtin<VS>)> {
     let mut v = generic_probes::<VS>();
     v.push(("mark", Builtin::new(Type::Mandatory, mark_main)));
     v.push(("fds", Builtin::new(Type::Mandatory, fds_main)));
+    v.push(("tell", Builtin::new(Type::Mandatory, tell_main)));
     v
 }
